@@ -114,6 +114,7 @@ func (c *Collection) Update(id string, msg proto.Message, opts ...WriteOption) (
 
 	var created proto.Message // during create, this is returned by GetFn so concurrent reference checks pass
 	var publishing bool
+	var targets minibus.Targets
 	oldValue, newValue, err := GetAndUpdate(
 		&c.mu,
 		func() (item proto.Message, err error) {
@@ -155,6 +156,10 @@ func (c *Collection) Update(id string, msg proto.Message, opts ...WriteOption) (
 		publishInOrder(&c.pubMu, &publishing, writeRequest.changeFn(writer, msg)),
 		func(msg proto.Message) {
 			c.byId[id] = &item{body: msg, changeTime: writeRequest.updateTime(c.clock)}
+			// the change goes to the subscribers registered now: one that registers later has it among its seed
+			// values, and sending it again as an ADD would let a subscriber without backpressure merge that ADD with
+			// a later REMOVE into nothing and keep the deleted item
+			targets = c.bus.Targets()
 		})
 	if publishing {
 		defer c.pubMu.Unlock()
@@ -172,7 +177,7 @@ func (c *Collection) Update(id string, msg proto.Message, opts ...WriteOption) (
 		oldValue = nil
 	}
 	verifAt("pub.before", &c.mu)
-	c.bus.Send(context.TODO(), &CollectionChange{
+	c.bus.SendTo(context.TODO(), targets, &CollectionChange{
 		Id:         id,
 		ChangeTime: writeRequest.updateTime(c.clock),
 		ChangeType: changeType,
@@ -364,11 +369,6 @@ func (c *Collection) PullID(ctx context.Context, id string, opts ...ReadOption) 
 func (c *Collection) onUpdate(ctx context.Context, config *ReadRequest) (<-chan any, []idItem) {
 	var res []idItem
 	if !config.UpdatesOnly {
-		// No write may be between its commit and its publication while the snapshot is taken and the listener
-		// registered: its change would be both in the snapshot and sent to the listener, and a lossy subscriber
-		// merging that duplicate ADD with a later REMOVE would never learn that the item has gone.
-		c.pubMu.Lock()
-		defer c.pubMu.Unlock()
 		c.mu.RLock()
 		defer c.mu.RUnlock()
 		res = c.itemSlice(config)
